@@ -7,11 +7,11 @@
    It needed the repair of D3 (stakes are non-negative).  Hypotheses: signers are user accounts, a market has fewer than 2^64
    outcomes, and the validated constraint bet fee <= minimum bet amount.
    After resolution the same inequality for the declared outcome says that what the participation is paid (liquidity + realised
-   profit once all its bets are settled) is not negative; the attribution of realised profit to settled bets is decided per run
-   by the EndBlock accounting monitor. *)
+   profit once all its bets are settled) is not negative: C02_payout_nonneg, over ALL histories, from the profit attribution of
+   Proofs/Settle.v (see Props/C04.v) -- a house never loses more than it left in the book. *)
 From Coq Require Import ZArith Bool List.
 From Sge Require Import Lib.Dec Model.Types Model.Orderbook Model.Mint Model.Chain Proofs.BookFacts Proofs.Custody
-     Proofs.BookAPI Proofs.BookInv Proofs.BookHist Proofs.BookCover Proofs.CoverHist Proofs.Local Witness.C01w.
+     Proofs.BookAPI Proofs.BookInv Proofs.BookHist Proofs.BookCover Proofs.CoverHist Proofs.Local Proofs.SubHist Proofs.NoAbort Witness.C01w.
 Import ListNotations.
 Open Scope Z_scope.
 
@@ -56,3 +56,17 @@ Theorem C02_withdraw_bound : forall b depositor idx mode wtotal amount w,
             (exists e r, expos_of_part_ix b idx = e :: r /\ e_round e = 1).
 Proof. exact calc_withdrawal_spec. Qed.
 Print Assumptions C02_withdraw_bound.
+
+(* the house's loss is bounded by its deposit: once the book of a declared market is resolved, every bet is settled and
+   liquidity + recorded profit (the amount settleParticipation pays back) is never negative *)
+Theorem C02_payout_nonneg : forall P bk supply vault MP t0 sw sd,
+  pr_bet_fee P <= pr_bet_min P -> 0 <= pr_bet_fee P ->
+  bget bk POOL = 0 -> bget bk HOUSEFEE = 0 -> bget bk BETFEE = 0 -> (forall a, SUBBASE <= a -> 0 <= bget bk a) ->
+  forall ops m x p w, Forall user_op ops -> get_ms (run (init bk supply P vault MP t0 sw sd) ops) m = Some x ->
+  In p (bk_parts (ms_book x)) -> bk_status (ms_book x) <> BK_ACTIVE -> k_status (ms_mkt x) = MK_DECLARED -> k_winners (ms_mkt x) = [w] ->
+  (forall b, In b (ms_bets x) -> b_status b = BS_SETTLED) /\
+  p_liq p + p_profit p =
+    p_liq p + (stake_i (p_idx p) (bets_of x) - stake_io (p_idx p) w (bets_of x)) - pay_io (p_idx p) w (bets_of x) /\
+  0 <= p_liq p + p_profit p.
+Proof. exact payout_over_histories. Qed.
+Print Assumptions C02_payout_nonneg.
